@@ -260,6 +260,46 @@ def build_if_pair(rng, env):
     return pr
 
 
+def build_if_derived(rng, env):
+    """crafted family: exactly ONE fluent is written directly from an interpreted function; other fluents are copies of it (a chain of 1-2
+    copies) and a precondition / the goal can only be met through the real function value of the LAST copy.  The actions are declared in a
+    random order (the copying action may come before the computing one), so finding the fluents that depend on the function needs the
+    full fixpoint, not one pass in declaration order"""
+    tm, em = env.type_manager, env.expression_manager
+    pr = up.model.Problem("ifderived", env)
+    mk = lambda n, t, v: (lambda f: (pr.add_fluent(f, default_initial_value=v), f)[1])(up.model.Fluent(n, t, environment=env))   # noqa: E731
+    x = mk("x", tm.IntType(0, 3), rng.randint(0, 3))
+    fv = mk("fv", tm.IntType(0, 9), 0)
+    g = mk("g", tm.IntType(0, 9), 0)
+    h = mk("h", tm.IntType(0, 9), 0)
+    done = mk("done", tm.BoolType(), False)
+    table = [rng.randint(1, 9) for _ in range(4)]
+    f = InterpretedFunction("f", tm.IntType(0, 9), OrderedDictI({"a": tm.IntType(0, 3)}), lambda a, table=table: table[a], env)
+    x0 = pr.initial_value(x()).constant_value()
+    depth = rng.choice([1, 2])
+    last = g if depth == 1 else h
+    compute = up.model.InstantaneousAction("compute", _env=env)
+    compute.add_effect(fv, f(x))
+    copy1 = up.model.InstantaneousAction("copy", _env=env)
+    copy1.add_effect(g, fv)
+    copy2 = up.model.InstantaneousAction("copy_again", _env=env)
+    copy2.add_effect(h, g)
+    finish = up.model.InstantaneousAction("finish", _env=env)
+    shape = rng.randint(0, 1)
+    if shape == 0:
+        finish.add_precondition(em.Equals(last, table[x0]))
+        finish.add_effect(done, True)
+    else:
+        finish.add_effect(done, True)
+        pr.add_goal(em.Equals(last, table[x0]))
+    acts = [compute, copy1, finish] + ([copy2] if depth == 2 else [])
+    rng.shuffle(acts)
+    for a in acts:
+        pr.add_action(a)
+    pr.add_goal(done)
+    return pr
+
+
 def OrderedDictI(d):
     from collections import OrderedDict
     return OrderedDict(d)
@@ -327,14 +367,14 @@ def _if_cond_tag(pr):
 
 def scenario(seed, failures, stats, pair=False):
     rng = random.Random(seed)
-    label = {"seed": seed, "family": "pair" if pair else "generated"}
+    label = {"seed": seed, "family": ("derived" if pair == "derived" else "pair") if pair else "generated"}
 
     def bad(what, observed=None):
         if what not in {f["what"] for f in failures}:
             failures.append({"what": what, "concrete": label, "observed": observed})
     # ---------------- interpreted functions planner
     env = fresh_env()
-    pr = build_if_pair(rng, env) if pair else build_if(rng, env)
+    pr = (build_if_derived(rng, env) if pair == "derived" else build_if_pair(rng, env)) if pair else build_if(rng, env)
     try:
         seen, rep = ref_reachable(pr)
     except seqsem.Ambiguous:
@@ -406,10 +446,11 @@ def bounded(tier, seed):
         for i in range(n):
             scenario(seed * 100003 + i, failures, stats)
             scenario(seed * 100003 + 70000 + i, failures, stats, pair=True)
+            scenario(seed * 100003 + 90000 + i, failures, stats, pair="derived")
             if len(failures) >= 8:
                 break
     return {"evaluations": stats["n"], "distinct_nontrivial": len(stats["distinct"]), "failures": failures[:8],
-            "rule": f"{n} seeds x (one interpreted-functions problem + one oversubscription problem), each solved through the real meta-engine around the "
+            "rule": f"{n} seeds x (one generated, one 'pair' and one 'derived-copies' interpreted-functions problem + one oversubscription problem), each solved through the real meta-engine around the "
                     f"harness's exact BFS planner and compared with an exhaustive reference search of the original problem",
             "samples": [{"outcomes": sorted(map(str, stats["distinct"]))[:12]}], "bound": f"{n} seeds"}
 
@@ -419,7 +460,7 @@ def replay_file(data):
     failures, stats = [], {"n": 0, "distinct": set()}
     with warnings.catch_warnings():
         warnings.simplefilter("ignore")
-        scenario(c.get("seed", 0), failures, stats, pair=c.get("family") == "pair")
+        scenario(c.get("seed", 0), failures, stats, pair={"pair": True, "derived": "derived"}.get(c.get("family"), False))
     return {"reproduced": bool(failures), "concrete": c, "observed": [f["what"] for f in failures][:4]}
 
 
